@@ -46,29 +46,9 @@ type followerWorld struct {
 	id             string
 }
 
-func cloneHeader(h *types.SignedHeader) *types.SignedHeader {
-	b, err := h.MarshalBinary()
-	if err != nil {
-		panic(err)
-	}
-	n := new(types.SignedHeader)
-	if err := n.UnmarshalBinary(b); err != nil {
-		panic(err)
-	}
-	return n
-}
+func cloneHeader(h *types.SignedHeader) *types.SignedHeader { return sim.CloneHeader(h) }
 
-func cloneData(d *types.Data) *types.Data {
-	b, err := d.MarshalBinary()
-	if err != nil {
-		panic(err)
-	}
-	n := new(types.Data)
-	if err := n.UnmarshalBinary(b); err != nil {
-		panic(err)
-	}
-	return n
-}
+func cloneData(d *types.Data) *types.Data { return sim.CloneData(d) }
 
 func (fw *followerWorld) top() uint64 { return fw.blocks[len(fw.blocks)-1].H }
 
